@@ -17,6 +17,33 @@
 #include <stdlib.h>
 #include <string.h>
 
+#ifdef AGENTD_SQUASHFS_TOOLS_NG_VERIF
+/*
+ * Verification hook: when built with AddressSanitizer, the part of the block
+ * buffer behind data_used is poisoned, so an access beyond the data of the
+ * cached block is reported instead of silently returning stale bytes.
+ */
+#if defined(__SANITIZE_ADDRESS__)
+#define VERIF_HAVE_ASAN 1
+#elif defined(__has_feature)
+#if __has_feature(address_sanitizer)
+#define VERIF_HAVE_ASAN 1
+#endif
+#endif
+#endif
+
+#ifdef VERIF_HAVE_ASAN
+#include <sanitizer/asan_interface.h>
+#define VERIF_UNPOISON_BLOCK(m) \
+	ASAN_UNPOISON_MEMORY_REGION((m)->data, sizeof((m)->data))
+#define VERIF_POISON_BLOCK_TAIL(m) \
+	ASAN_POISON_MEMORY_REGION((m)->data + (m)->data_used, \
+				  sizeof((m)->data) - (m)->data_used)
+#else
+#define VERIF_UNPOISON_BLOCK(m) ((void)0)
+#define VERIF_POISON_BLOCK_TAIL(m) ((void)0)
+#endif
+
 struct sqfs_meta_reader_t {
 	sqfs_object_t base;
 
@@ -61,7 +88,10 @@ static sqfs_object_t *meta_reader_copy(const sqfs_object_t *obj)
 	sqfs_meta_reader_t *copy = malloc(sizeof(*copy));
 
 	if (copy != NULL) {
+		VERIF_UNPOISON_BLOCK((sqfs_meta_reader_t *)obj);
 		memcpy(copy, m, sizeof(*m));
+		VERIF_POISON_BLOCK_TAIL((sqfs_meta_reader_t *)obj);
+		VERIF_POISON_BLOCK_TAIL(copy);
 
 		/* duplicate references */
 		copy->cmp = sqfs_grab(copy->cmp);
@@ -127,6 +157,7 @@ int sqfs_meta_reader_seek(sqfs_meta_reader_t *m, sqfs_u64 block_start,
 	/* The buffer is about to be overwritten. If anything fails from here
 	   on, it must not be mistaken for the previously cached block. */
 	m->block_offset = 0xFFFFFFFFFFFFFFFFUL;
+	VERIF_UNPOISON_BLOCK(m);
 
 	err = m->file->read_at(m->file, block_start + 2, m->data, size);
 	if (err)
@@ -144,6 +175,8 @@ int sqfs_meta_reader_seek(sqfs_meta_reader_t *m, sqfs_u64 block_start,
 	} else {
 		m->data_used = size;
 	}
+
+	VERIF_POISON_BLOCK_TAIL(m);
 
 	if (offset >= m->data_used)
 		return SQFS_ERROR_OUT_OF_BOUNDS;
